@@ -159,3 +159,13 @@ def _f24(v):
         return False
     changed = [(x, y) for x, y in zip(a, b) if x != y]
     return bool(changed) and all(x[1] == "STARTED" and y[1] in ("SUCCEEDED", "FAILED") and x[0] == y[0] for x, y in changed)
+
+
+@matcher("F28_async_checkpoint_failure_then_suspend")
+def _f28(v):
+    """A call carrying only NON-BLOCKING updates (e.g. the START of a child context) fails, it is the last call of the
+    invocation, and the handler then suspends without another synchronous checkpoint (Callback.result() of a callback
+    started earlier): the wrapper's `except SuspendExecution` returns PENDING without looking at the failure."""
+    d = v.get("detail") or {}
+    return (v["oracle"] == "C06.success_or_pending_after_checkpoint_failure" and (d.get("end") or {}).get("end") == "suspended"
+            and d.get("async_only") is True)
